@@ -119,7 +119,7 @@ class Settings:
         """name -> z3 term, for every single value that can influence a fit"""
         c = dict(self.t)
         for n in PARAMS:
-            for a in ("value", "min", "max", "vary", "expr"):
+            for a in ("value", "min", "max", "vary", "expr", "brute_step"):
                 c[f"params_initial.{n}.{a}"] = self.pt[n][a]
         return c
 
@@ -298,6 +298,11 @@ def unit_obj2bytes(tier=None, seed=None):
             p1, t1 = sym_parameters(I, ["E"], prefix="P")
             p2, t2 = sym_parameters(I, ["E"], prefix="Q")
             objs = (p1.map.d["E"][1], p2.map.d["E"][1])
+            # the step size of the "brute" method is optional (None unless the user sets it)
+            st["brute_given"] = I.fork(z3.Bool("brute_step_given"))
+            if not st["brute_given"]:
+                objs[0].attrs["brute_step"] = None
+                objs[1].attrs["brute_step"] = None
             st["attrs"] = (t1["E"], t2["E"])
         elif case == "none_str":
             objs = (None, a1)
@@ -335,10 +340,13 @@ def unit_obj2bytes(tier=None, seed=None):
         if case == "parameter_attrs":
             t1, t2 = st["attrs"]
             E = chunks_eq(b1, b2)
-            for a in ("value", "min", "max", "vary", "expr"):
+            # "changing the value of any single setting that can influence the result ... changes the hash": value,
+            # bounds, vary, expression -- and the grid step of the "brute" method when one is set
+            attrs_ = ("value", "min", "max", "vary", "expr") + (("brute_step",) if st["brute_given"] else ())
+            for a in attrs_:
                 S.ensure(f"parameter_attribute_encoded.{a}", z3.Implies(t1[a] != t2[a], z3.Not(E)))
             S.ensure("parameter_equal_attrs_equal_bytes",
-                     z3.Implies(z3.And(*[t1[a] == t2[a] for a in ("value", "min", "max", "vary", "expr")]), E))
+                     z3.Implies(z3.And(*[t1[a] == t2[a] for a in attrs_]), E))
         if case == "none_str":
             S.ensure("none_is_literal", b1.chunks == [("lit", b"none")])
             S.ensure("str_is_utf8", len(b2.chunks) == 1 and b2.chunks[0][0] == "utf8")
@@ -546,8 +554,8 @@ CANARIES = [
          expect="equal_effective_settings_equal_hash"),
     dict(name="numbers encoded with str(obj)", file="fit.py", old="return str(float(obj)).encode(\"utf-8\")",
          new="return str(obj).encode(\"utf-8\")", expect="representation_independent"),
-    dict(name="parameter min not encoded", file="fit.py", old="return obj2bytes([obj.value, obj.max, obj.min, obj.vary,",
-         new="return obj2bytes([obj.value, obj.max, obj.vary,", expect="min"),
+    dict(name="parameter min not encoded", file="fit.py", old="attrs = [obj.value, obj.max, obj.min, obj.vary, obj.expr, obj.name]",
+         new="attrs = [obj.value, obj.max, obj.vary, obj.expr, obj.name]", expect="min"),
     dict(name="y data not hashed", file="fit.py", old="        hashlist.append(self.y_axis)\n", new="", expect="y_sample"),
     dict(name="object identity mixed in", file="fit.py", old="        hashlist = []\n        # preprocessing",
          new="        hashlist = [str(id(self))]\n        # preprocessing", expect="C12"),
